@@ -68,6 +68,13 @@ def results_summary(r, profiles=True):
     return out
 
 
+def _safe(fun, default=None):
+    try:
+        return fun()
+    except Exception:  # noqa: BLE001
+        return default
+
+
 def hydro_summary(manager):
     h = manager.hydrodynamics
     t = manager.thermodynamics
@@ -85,6 +92,9 @@ def hydro_summary(manager):
                       bool(t.freeEnergyHigh.maxPossibleTemperature[1])],
         "flagsLow": [bool(t.freeEnergyLow.minPossibleTemperature[1]),
                      bool(t.freeEnergyLow.maxPossibleTemperature[1])],
+        "fastestDeflag": _f(_safe(h.fastestDeflag)),
+        "tracedHighAtTn": _arr(_safe(lambda: t.freeEnergyHigh(h.Tnucl).fieldsAtMinimum, [float("nan")])),
+        "tracedLowAtTn": _arr(_safe(lambda: t.freeEnergyLow(h.Tnucl).fieldsAtMinimum, [float("nan")])),
         "phase1": _arr(manager.phasesAtTn.phaseLocation1),
         "phase2": _arr(manager.phasesAtTn.phaseLocation2),
     }
